@@ -54,19 +54,19 @@ VARIABLES
   ppc,      \* parser: "wait" | "status" | "headers" | "frame" | "chunksize" | "chunkdata" | "clbody" | "done"
   pos,      \* parser: bytes consumed
   pv, pcode, phdrs, pbody, clen,   \* parser: fields parsed so far, pending chunk / body length
-  res       \* "run" | "ok" | "err_response" | "err_stream" | "trunc"
+  res       \* "run" | "ok" | "err_response" | "err_stream"
 vars == <<meta, mode, r0, wire, spc, todo, avail, eof, lfs, ppc, pos, pv, pcode, phdrs, pbody, clen, res>>
 parsed == Resp(pv, pcode, phdrs, pbody)
 
 CONSTANT Segmented   \* TRUE: bytes arrive in arbitrary segments; FALSE: all at once
 
 \* --- serialiser: impl From<Response> for Vec<u8> ------------------------------------------------
-\* Headers::iter() sorts (stably, after C02's repair) by (category, name).  Only the relative order of
-\* equal names is observable for C07; the model emits the least remaining name first, ties in list order.
+\* Headers::iter() sorts the fields stably by (category, name) (headers.rs; stable since fix 27df1d6).
+\* C07 observes only the relative order of fields with the same name, so the model does not fix the
+\* order between different names: the serialiser emits, nondeterministically, any remaining header
+\* that has no earlier remaining header of the same name.  Every same-name-order-preserving
+\* interleaving is explored; the code's order is one of them.
 SerKey(h) == Lower(h.n)
-\* (a total order on strings is not available in TLC; any same-name-order-preserving order is a
-\*  correct model, so the serialiser picks nondeterministically among the remaining headers that
-\*  have no earlier header of the same name)
 Emittable(hs) == { i \in 1..Len(hs) : \A j \in 1..(i - 1) : SerKey(hs[j]) # SerKey(hs[i]) }
 RemoveAt(s, i) == SubSeq(s, 1, i - 1) \o SubSeq(s, i + 1, Len(s))
 
@@ -115,7 +115,8 @@ Net_Deliver ==
   /\ UNCHANGED <<meta, mode, r0, wire, spc, todo, lfs, ppc, pos, pv, pcode, phdrs, pbody, clen, res>>
 
 \* BufReader::read_until(b'\n'): returns the line including LF once it has been delivered, or what is
-\* left at EOF.  Read::read_exact(n): returns once n bytes have been delivered, fails at EOF.
+\* left at EOF.  Read::read_exact(n) and take(n).read_to_end + length check: return once n bytes have
+\* been delivered, fail (ResponseError::Stream) when the stream ends first.
 NextLF     == IF \E i \in 1..Len(lfs) : lfs[i] > pos
               THEN lfs[CHOOSE i \in 1..Len(lfs) : lfs[i] > pos /\ \A j \in 1..(i - 1) : lfs[j] <= pos] ELSE 0
 LineReady  == IF NextLF # 0 THEN NextLF <= avail ELSE eof
@@ -145,14 +146,16 @@ Par_StatusLine ==
            ELSE pv' = parts[1] /\ pcode' = c /\ ppc' = "headers" /\ res' = res
   /\ UNCHANGED <<meta, mode, r0, wire, spc, todo, avail, eof, lfs, phdrs, pbody, clen>>
 
-\* one iteration of the header loop.  A line without a colon is a malformed message (today the code
-\* panics there - finding NoColonPanicResp of C03; a conforming server never sends one).
+\* one iteration of the header loop: the line must end in CRLF (strip_suffix) and contain a colon
+\* (split_once), otherwise the message is malformed - ResponseError::Response.  A conforming server
+\* never sends such a line.
+EndsInCRLF(line) == Len(line) >= 2 /\ Drop(line, Len(line) - 2) = CRLF
 Par_HeaderLine ==
   /\ ppc = "headers" /\ res = "run" /\ LineReady
   /\ LET line == TheLine IN
      /\ pos' = pos + Len(line)
      /\ IF line = CRLF THEN ppc' = "frame" /\ UNCHANGED <<phdrs, res>>
-        ELSE IF Len(line) < 2 THEN Finish("err_response") /\ UNCHANGED phdrs
+        ELSE IF ~EndsInCRLF(line) THEN Finish("err_response") /\ UNCHANGED phdrs
         ELSE LET lw == Take(line, Len(line) - 2)
                  c  == Find(lw, ":", 1)
              IN IF c = 0 THEN Finish("err_response") /\ UNCHANGED phdrs
@@ -187,23 +190,24 @@ Par_ClBody ==
 \* end of the chunk loop: Transfer-Encoding removed, Content-Length added
 DecodedHeaders == (IF "TeKeptAfterDecode" \in Dev THEN phdrs ELSE Without(phdrs, "transfer-encoding"))
                   \o <<Hdr("Content-Length", Dec(Len(pbody)))>>
-\* a chunked stream that ends early or is garbled is not a conforming message; its outcome
-\* (today: Ok with the chunks read so far) belongs to C09 and is left open here as "trunc"
+\* parse_chunk, first half: the size line.  A size that is not hexadecimal is ResponseError::Response
 Par_ChunkSize ==
   /\ ppc = "chunksize" /\ res = "run" /\ LineReady
   /\ LET line == TheLine
          txt  == TrimEndWS(line)                       \* str::trim_end
          n    == IF "DecimalChunkSize" \in Dev THEN DecVal(txt) ELSE HexVal(txt)
      IN /\ pos' = pos + Len(line)
-        /\ IF n = NaN THEN Finish("trunc") /\ UNCHANGED <<clen, phdrs>>
+        /\ IF n = NaN THEN Finish("err_response") /\ UNCHANGED <<clen, phdrs>>
            ELSE clen' = n /\ ppc' = "chunkdata" /\ UNCHANGED <<res, phdrs>>
   /\ UNCHANGED <<meta, mode, r0, wire, spc, todo, avail, eof, lfs, pv, pcode, pbody>>
 
+\* parse_chunk, second half: the data (take(n).read_to_end, length checked) and the CRLF after it
+\* (read_exact of 2 bytes); a stream that ends early is ResponseError::Stream
 Par_ChunkData ==
   /\ ppc = "chunkdata" /\ res = "run"
   /\ LET need == clen + (IF "NoCrlfAfterChunk" \in Dev /\ clen > 0 THEN 0 ELSE 2) IN
      /\ ExactReady(need)
-     /\ IF ~ExactOk(need) THEN Finish("trunc") /\ UNCHANGED <<pos, pbody, phdrs>>
+     /\ IF ~ExactOk(need) THEN Finish("err_stream") /\ UNCHANGED <<pos, pbody, phdrs>>
         ELSE /\ pos' = pos + need
              /\ IF clen = 0
                 THEN pbody' = pbody /\ phdrs' = DecodedHeaders /\ Finish("ok")
